@@ -22,6 +22,10 @@ def run(chk):
     pc.run_policy_check(chk, "C11", "proj_P12", {"mode": "execute", "p_no_retry": 0.6, "p_nested_coe": 0.3, "p_special": 0.3,
                                                   "specials": ["A", "C", "N", "N"]}, oracle_pid="C11P", theorems_ok=ok,
                         cov_key="policy_outcomes", n_quick=200, n_thorough=3000)
+    if ok:
+        import source_tie
+        source_tie.report(chk, source_tie.loop_tie(chk), "loop",
+                          "scripted call sequences (random, abort sentinels and sweeps): no property violation found")
 
 
 def replay(path):
